@@ -383,8 +383,10 @@ def install(E: Any) -> None:
             self.pre.ax(f"{key}.idx", z3.ForAll([m, i], z3.Implies(
                 z3.And(0 <= i, i < self.pre.seqf(ks, "len")(keys(m))),
                 self.pre.seqf(iseq, "idx")(f(m), i) == self.pre.tup_mk(tty, [kidx(keys(m), i), get(m, kidx(keys(m), i))])),
-                patterns=[self.pre.seqf(iseq, "idx")(f(m), i)]))
-        return V(f(obj.t), iseq)
+                patterns=[self.pre.seqf(iseq, "idx")(f(m), i), z3.MultiPattern(f(m), kidx(keys(m), i))]))
+        r = V(f(obj.t), iseq)
+        self.mention(r)
+        return r
     E.methods["dict.items"] = m_dict_items
 
     def m_dict_get(self: Any, obj: Any, n: ast.Call, st: Any) -> Any:
